@@ -79,51 +79,109 @@ let tok_of_pout o =
 
 let filter_map f l = List.fold_right (fun x a -> match f x with Some y -> y :: a | None -> a) l []
 
-(* impl tokens -> (log up to Q, whole log, q sample, s sample, within_cap, warned, busy) *)
-let parse_obs obs =
+(* impl tokens -> (log up to Q, whole log, q sample, s sample, within_cap, warned, busy, done order,
+   refused-while-stopping).  Go calls the same done() for a finished batch and for the batch the
+   inserter was in when Stop() arrived; a Z.b is a completion (PDone) iff every event of b entered
+   process() before it, otherwise it is the deferred done() of a batch cut short (PAborted). *)
+let parse_obs (size_of : int -> int) (batch_of_g : string -> int) obs =
   let lq = ref [] and l = ref [] and seenq = ref false in
   let q = ref (N0, N0) and s = ref (N0, N0) and m = ref true and w = ref false and busy = ref [] in
-  let zs = ref [] in
+  let zs = ref [] and term = ref [] and hasq = ref false in
+  let handled = Hashtbl.create 16 in
   let push o = l := o :: !l; if not !seenq then lq := o :: !lq in
   List.iter (fun t ->
     match String.split_on_char '.' t with
     | ["H"] -> push PHighest
-    | ["A"; g] -> push (PHandle (n_of_tok g))
+    | ["A"; g] ->
+      let b = batch_of_g g in
+      Hashtbl.replace handled b (1 + (try Hashtbl.find handled b with Not_found -> 0));
+      push (PHandle (n_of_tok g))
     | ["C"; g; e; ok] -> push (PCheck (n_of_tok g, n_of_tok e, ok = "1"))
     | ["P"; g; e; ok] -> push (PProcess (n_of_tok g, n_of_tok e, ok = "1"))
     | ["R"; g; e; err] -> push (PReleased (n_of_tok g, n_of_tok e, n_of_tok err))
     | ["N"; b; ids] -> push (PAnnounce (n_of_tok b, if ids = "-" then [] else List.map n_of_tok (String.split_on_char '_' ids)))
-    | ["Z"; b] -> if !seenq then push (PAborted (n_of_tok b))
-                  else begin zs := int_of_string b :: !zs; push (PDone (n_of_tok b)) end
+    | ["Z"; b] ->
+      let bi = int_of_string b in
+      let h = (try Hashtbl.find handled bi with Not_found -> 0) in
+      if h >= size_of bi then begin zs := bi :: !zs; push (PDone (n_of_tok b)) end
+      else push (PAborted (n_of_tok b))
     | ["Y"] -> push PStopped
-    | ["Q"; hn; hs; _; _] -> seenq := true; q := (n_of_tok hn, n_of_tok hs)
+    | ["Q"; hn; hs; _; _] -> seenq := true; hasq := true; q := (n_of_tok hn, n_of_tok hs)
     | ["S"; hn; hs] -> s := (n_of_tok hn, n_of_tok hs)
     | ["W"] -> w := true
     | ["M"; ok] -> m := (ok = "1")
     | ["BZ"; b] -> busy := int_of_string b :: !busy
+    | ["BT"; b] -> term := int_of_string b :: !term
     | _ -> failwith ("bad obs token " ^ t)) obs;
-  (List.rev !lq, List.rev !l, !q, !s, !m, !w, List.rev !busy, List.rev !zs)
+  (List.rev !lq, List.rev !l, !q, !s, !m, !w, List.rev !busy, List.rev !zs, List.rev !term, !hasq, handled)
+
+(* handled count of an ordered batch after the first j arrivals of perm: longest prefix 0..k-1 arrived *)
+let prefix_len arrived = let rec go k = if List.mem k arrived then go (k + 1) else k in go 0
 
 let eval inp obs =
   let groups = split_on ";" inp in
   let header, bts = (match groups with h :: r -> h, r | [] -> failwith "empty") in
   let h = parse_header header in
+  let stop_mode = List.exists (fun g -> match g with ["S"; _] -> true | _ -> false) bts in
+  let bts = List.filter (fun g -> match g with ["S"; _] -> false | _ -> true) bts in
   let gctr = ref 0 in
   let bs = List.map (parse_batch gctr) bts in
-  let (lq, l, (qn, qs), (sn, ss), m, w, busy, zs) =
-    (try parse_obs obs with _ -> ([], [], (N0, N0), (N0, N0), false, false, [], [])) in
+  let size_of b = (match List.find_opt (fun x -> x.bid = b) bs with Some x -> List.length x.perm | None -> max_int) in
+  let batch_of_g g =
+    (match List.find_opt (fun x -> List.exists (fun e -> tok_of_n e.pg = g) x.bt.b_events) bs with
+     | Some x -> x.bid | None -> -1) in
+  let (lq, l, (qn, qs), (sn, ss), m, w, busy, zs, term, hasq, handled) =
+    (try parse_obs size_of batch_of_g obs
+     with _ -> ([], [], (N0, N0), (N0, N0), false, false, [], [], [], false, Hashtbl.create 1)) in
   let parsed = (obs <> [] && l <> []) || obs = [] in
-  (* schedule: finished batches in the order they reached the inserter, then the accepted
-     unfinished ones in script order *)
+  let refused = busy @ term in
   let find b = List.find_opt (fun x -> x.bid = b) bs in
-  let finished = filter_map find zs in
-  let rest = List.filter (fun x -> not (List.mem x.bid zs) && not (List.mem x.bid busy)) bs in
-  let steps_of x =
+  (* batches in the order in which they reached the inserter = order of their first token *)
+  let order = ref [] in
+  List.iter (fun o ->
+    let b = (match o with
+      | PHandle g -> batch_of_g (tok_of_n g)
+      | PDone b | PAborted b -> ZA.to_int (z_of_n b) | _ -> -1) in
+    if b >= 0 && not (List.mem b !order) then order := !order @ [b]) l;
+  let started = filter_map find !order in
+  let silent = List.filter (fun x -> not (List.mem x.bid !order) && not (List.mem x.bid refused)) bs in
+  let hcount x = (try Hashtbl.find handled x.bid with Not_found -> 0) in
+  let aborted x = List.exists (fun o -> match o with PAborted b' -> tok_of_n b' = string_of_int x.bid | _ -> false) l in
+  (* what the inserter did with the batch once it had taken it up *)
+  let work x =
     let n = List.length x.perm in
     let fired, _ = take (max 0 (n - x.hold)) x.perm in
-    [SEnq x.bt] @ List.map (fun p -> SArrive (x.bt.b_id, nat_of_int p)) fired
-    @ List.map (fun _ -> SConsume) fired @ [SConsume] in
-  let steps = List.concat (List.map steps_of (finished @ rest)) in
+    let hb = if stop_mode then hcount x else n in
+    let deliver =
+      if not stop_mode then fired
+      else if not x.bt.b_ordered then fst (take (min hb (List.length fired)) fired)
+      else
+        (* ordered batches are fired from two goroutines: the arrival order is not the script's; any
+           arrival order after which exactly hb events are handled delivers positions 0..hb-1 (and
+           possibly later ones that stay in the reassembly array, which nothing observes) *)
+        List.init hb (fun i -> i) in
+    List.concat (List.map (fun p -> [SArrive (x.bt.b_id, nat_of_int p); SConsume]) deliver)
+    @ (if stop_mode && aborted x then [SAbort] else [SConsume]) in
+  (* stop mode: Stop() begins (SQuit) before the first batch that was cut short; every accepted
+     batch had acquired before that (afterwards the semaphore refuses), so their SEnq come first *)
+  let rec split_at_abort acc = function
+    | [] -> (List.rev acc, [])
+    | x :: r when aborted x -> (List.rev acc, x :: r)
+    | x :: r -> split_at_abort (x :: acc) r in
+  let steps =
+    if not stop_mode then List.concat (List.map (fun x -> SEnq x.bt :: work x) (started @ silent))
+    else begin
+      let before, after = split_at_abort [] started in
+      let drop_last l = (match List.rev l with _ :: r -> List.rev r | [] -> []) in
+      List.concat (List.map (fun x -> SEnq x.bt :: work x) before)
+      @ (match after with
+         | [] -> List.map (fun x -> SEnq x.bt) silent @ [SQuit]
+         | x0 :: rest ->
+           (* everything x0 handled happened before its abort; quit was closed before that abort *)
+           (SEnq x0.bt :: drop_last (work x0))
+           @ List.map (fun x -> SEnq x.bt) (rest @ silent) @ [SQuit; SAbort]
+           @ List.concat (List.map work rest))
+    end in
   let sq = prun_tbl h.tc h.tp h.capn h.caps h.limn h.lims h.h0 steps in
   let sf = pstep_run (tbl_check h.tc) (tbl_process h.tp) h.capn h.caps h.limn h.lims sq SStop in
   let toks s = filter_map tok_of_pout (List.rev (plog s)) in
@@ -134,23 +192,28 @@ let eval inp obs =
   let qtok = Printf.sprintf "Q.%s.%s.%s.%s" (tok_of_n (held_n sq)) (tok_of_n (held_s sq))
       (tok_of_n (total_num (inc (buf sq)))) (tok_of_n (total_size (inc (buf sq)))) in
   let stok = Printf.sprintf "S.%s.%s" (tok_of_n (held_n sf)) (tok_of_n (held_s sf)) in
-  let mobs = pre @ [qtok] @ post @ [stok] @ (if warned sf then ["W"] else []) @ ["M.1"]
-             @ List.map (fun b -> "BZ." ^ string_of_int b) busy in
-  let busy_n = List.map (fun b -> n_of_z (ZA.of_int b)) busy in
-  let bts = List.map (fun x -> x.bt) bs in
+  let mobs = pre @ (if hasq || not stop_mode then [qtok] else []) @ post @ [stok]
+             @ (if warned sf then ["W"] else []) @ ["M.1"]
+             @ List.map (fun b -> "BZ." ^ string_of_int b) busy
+             @ List.map (fun b -> "BT." ^ string_of_int b) term in
+  let refused_n = List.map (fun b -> n_of_z (ZA.of_int b)) refused in
+  let btl = List.map (fun x -> x.bt) bs in
+  let check lq l qn qs sn ss m w =
+    c15_first_failure h.limn h.h0 btl refused_n lq l qn qs sn ss m w in
   let spec_ok, note =
     if not parsed then Some false, "unparsable-observation" else
-    let f = c15_first_failure h.limn h.h0 bts busy_n lq l qn qs sn ss m w in
+    let f = if hasq then check lq l qn qs sn ss m w else check l l sn ss sn ss m w in
     if tok_of_n f = "0" then Some true, "" else Some false, "spec-clause=" ^ tok_of_n f in
-  let mparse = (try Some (parse_obs mobs) with _ -> None) in
+  let mparse = (try Some (parse_obs size_of batch_of_g mobs) with _ -> None) in
   let model_spec_ok =
     (match mparse with
-     | Some (lq, l, (qn, qs), (sn, ss), m, w, _, _) ->
-       tok_of_n (c15_first_failure h.limn h.h0 bts busy_n lq l qn qs sn ss m w) = "0"
+     | Some (lq, l, (qn, qs), (sn, ss), m, w, _, _, _, hq, _) ->
+       tok_of_n (if hq then check lq l qn qs sn ss m w else check l l sn ss sn ss m w) = "0"
      | None -> false) in
   let nontrivial =
     List.exists (fun x -> x.bt.b_ordered && x.perm <> List.sort compare x.perm) bs
-    || List.exists (fun t -> String.length t > 2 && t.[0] = 'R' && (let c = t.[String.length t - 1] in c = '4' || c = '6')) pre in
+    || List.exists (fun t -> String.length t > 2 && t.[0] = 'R' && (let c = t.[String.length t - 1] in c = '4' || c = '6')) pre
+    || (stop_mode && List.exists (fun o -> match o with PAborted _ -> true | _ -> false) l) in
   { default_verdict with model_obs = mobs; spec_ok; note; model_spec_ok; nontrivial }
 
 let () = run eval
